@@ -5,6 +5,7 @@
 import Driver.Codec
 import Driver.Conv
 import Driver.Ser
+import Driver.Builder
 import RevalModel.Impl.RuleSet
 import RevalModel.Spec.OperatorTable
 
@@ -41,6 +42,7 @@ def handle (line : String) : String :=
   | ["conv", op, arg] => handleConv op arg
   | ["ser", arg] => handleSer arg
   | ["evalser", rules, input, env, oracle] => handleEvalSer rules input env oracle
+  | ["builder", ops, xid] => handleBuilder ops xid
   | ["ping"] => "pong"
   | _ => "bad-request"
 
